@@ -1631,9 +1631,32 @@ class Frame:
                     return self.inline(r[0].module, None, r[1], None, None, {first[0]: t} if first else {}, p, node)
                 if r is None:
                     v = self.init_field(ci, t, attr)
+                    if v is None:
+                        v = self.record_field(ci, t, attr)
                     if v is not None:
                         return [(p, v)]
         return [(p, Sym("attr", (t,), text=attr) if False else Sym(f"attr:{attr}", (t,)))]
+
+    def record_field(self, ci: ClassInfo, t: Sym, attr: str) -> Optional[Term]:
+        """A field of a private record class (``NamedTuple`` / ``@dataclass`` without an ``__init__`` of its own): the constructor
+        argument in the position of the field's annotation, or given by keyword."""
+        if ci.find_method("__init__") is not None:
+            return None
+        is_record = "NamedTuple" in [b.split(".")[-1] for b in ci.external_bases()] or any(
+            ast.unparse(d).split("(")[0].split(".")[-1] == "dataclass" for d in ci.node.decorator_list)
+        if not is_record:
+            return None
+        fields = [st.target.id for st in ci.node.body if isinstance(st, ast.AnnAssign) and isinstance(st.target, ast.Name)]
+        if attr not in fields:
+            return None
+        for a_ in t.args:
+            if isinstance(a_, Sym) and a_.head == "kw:" + attr and a_.args:
+                return a_.args[0]
+        pos = [a_ for a_ in t.args if not (isinstance(a_, Sym) and a_.head.startswith("kw:"))]
+        if any(isinstance(a_, Sym) and a_.head == "star" for a_ in pos):
+            return None
+        i = fields.index(attr)
+        return pos[i] if i < len(pos) else None
 
     def plain_class(self, t: Term, context_manager: bool = False) -> Optional[ClassInfo]:
         """The repository class of a ``new:<Name>(…)`` term (a plain, non-node object built by the analysed code)."""
@@ -1795,7 +1818,10 @@ class Frame:
             items: List[Term] = []
             for x, t in zip(elts, ts):
                 if isinstance(x, ast.Starred):
-                    items.append(Sym("star", (t,)))
+                    if isinstance(t, Seq) and getattr(t, "kind", "") != "gen" and not any(isinstance(i_, Sym) and i_.head == "star" for i_ in t.items):
+                        items.extend(t.items)       # *xs of a display whose items are known: the items themselves
+                    else:
+                        items.append(Sym("star", (t,)))
                 else:
                     items.append(t)
             if not items and kind == "list":
@@ -2443,6 +2469,8 @@ class Frame:
             # computed (and every predicate called) before they look at the first
             self.ev(p, "call", text=name, args=tuple(pos), line=line)
             return [(p, Sym("call:" + name, (Sym("eager", (pos[0],)),)))]
+        if short == "reversed" and len(pos) == 1 and not kw and isinstance(pos[0], Seq) and not any(isinstance(x, Sym) and x.head == "star" for x in pos[0].items):
+            return [(p, Seq(list(reversed(pos[0].items))))]        # a display whose items are known, walked backwards
         if short in ("sorted", "reversed") and pos:
             return [(p, Sym("reordered:" + short, (pos[0],) + tuple(Sym("kw:" + k, (v,)) for k, v in sorted(kw.items()))))]
         if name in ("functools.partial",) or short == "partial" and callee.head == "ext":
@@ -2772,12 +2800,25 @@ class Frame:
         if not hasattr(self.ctx, "call_stack"):
             self.ctx.call_stack = []
         plain = selfattrs is None and not isinstance(selfterm, New)
-        if not isinstance(fn, ast.Lambda) and plain and self.ctx.call_stack.count(id(fn)) >= 1:
+        # a plain helper is on the stack again: with the very arguments it is already working on this is recursion (not unfolded again);
+        # with other arguments it is a second, nested use (a shared ``validate_each(members, options)`` called for an Iter inside an Iter)
+        akey = tuple(v.key() if isinstance(v, Term) else "" for v in bound.values())
+        on_stack = [k_ for f_, k_ in self.ctx.call_stack if f_ == id(fn)]
+        self_rec = getattr(fn, "_sa_self_recursive", None)
+        if self_rec is None and not isinstance(fn, ast.Lambda):
+            # a function that calls itself (by name, or as a method of the same name) recurses over its data: never unfolded twice
+            self_rec = any(isinstance(c_, ast.Call) and ((isinstance(c_.func, ast.Name) and c_.func.id == fn.name) or (isinstance(c_.func, ast.Attribute) and c_.func.attr == fn.name))
+                           for c_ in ast.walk(fn))
+            try:
+                fn._sa_self_recursive = self_rec
+            except Exception:
+                pass
+        if not isinstance(fn, ast.Lambda) and plain and on_stack and (self_rec or akey in on_stack or len(on_stack) >= 3):
             # plain (non-node) recursion: do not unfold again
             args_ = tuple(v for v in bound.values() if isinstance(v, Term))
             self.ev(p, "call", text=fn.name + "<recursive>", args=args_, line=getattr(node, "lineno", 0))
             return [(p, Sym("call:" + fn.name, args_))]
-        self.ctx.call_stack.append(id(fn))
+        self.ctx.call_stack.append((id(fn), akey))
         try:
             return self._inline(module, owner, fn, selfterm, selfattrs, bound, p, node, via)
         finally:
